@@ -95,6 +95,9 @@ func names1(m map[string]*string) map[string]string {
 
 func err1(err error) error {
 	if e, ok := err.(*Error); ok {
+		if e.Code == ErrTimeout {
+			return awserr.New("RequestError", "send request failed", timeoutErr{e.Msg})
+		}
 		return awserr.New(e.Code, e.Msg, nil)
 	}
 	return err
